@@ -22,28 +22,28 @@ fn v4_pkt(src3: u8, ident: u8, proto: u8, off_units: u8, mf: bool, payload: [u8;
 
 /// IPv6 fragment (RFC 8200 3, 4.5): 40 byte header, optional 8 byte hop-by-hop header (one PadN option), fragment header, 8 payload bytes.
 /// Returns the packet in a 64 byte array and its length (56 without, 64 with the hop-by-hop header).
-fn v6_pkt(hbh: bool, ident: u8, off_units: u8, mf: bool, reserved: u8, payload: [u8; 8]) -> ([u8; 64], usize) {
-    let frag = [17u8, 0, 0, (off_units << 3) | ((reserved & 3) << 1) | (mf as u8), 0, 0, 0, ident];
-    let hop = [44u8, 0, 1, 4, 0, 0, 0, 0];
-    let mut b = [0u8; 64];
-    b[0] = 0x60;
-    b[5] = if hbh { 24 } else { 16 }; // payload length
-    b[6] = if hbh { 0 } else { 44 }; // next header
-    b[7] = 64;
-    b[8] = 0x20; b[9] = 0x01; b[10] = 0x0d; b[11] = 0xb8; b[23] = 1;
-    b[24] = 0x20; b[25] = 0x01; b[26] = 0x0d; b[27] = 0xb8; b[39] = 2;
-    let mut p = 40;
+fn v6_pkt(hbh: bool, ident: u8, off_units: u8, mf: bool, reserved: u8, p: [u8; 8]) -> ([u8; 64], usize) {
+    let f3 = (off_units << 3) | ((reserved & 3) << 1) | (mf as u8);
+    let a = [0x20u8, 0x01, 0x0d, 0xb8];
     if hbh {
-        let mut i = 0;
-        while i < 8 { b[p + i] = hop[i]; i += 1; }
-        p += 8;
+        ([
+            0x60, 0, 0, 0, 0, 24, 0, 64, // version, payload length 24, next header hop-by-hop, hop limit
+            a[0], a[1], a[2], a[3], 0, 0, 0, 0, 0, 0, 0, 0, 0, 0, 0, 1, // source
+            a[0], a[1], a[2], a[3], 0, 0, 0, 0, 0, 0, 0, 0, 0, 0, 0, 2, // destination
+            44, 0, 1, 4, 0, 0, 0, 0, // hop-by-hop: next header fragment, length 0, PadN of 4
+            17, 0, 0, f3, 0, 0, 0, ident, // fragment header: next header UDP, reserved, offset/res/M, identification
+            p[0], p[1], p[2], p[3], p[4], p[5], p[6], p[7],
+        ], 64)
+    } else {
+        ([
+            0x60, 0, 0, 0, 0, 16, 44, 64,
+            a[0], a[1], a[2], a[3], 0, 0, 0, 0, 0, 0, 0, 0, 0, 0, 0, 1,
+            a[0], a[1], a[2], a[3], 0, 0, 0, 0, 0, 0, 0, 0, 0, 0, 0, 2,
+            17, 0, 0, f3, 0, 0, 0, ident,
+            p[0], p[1], p[2], p[3], p[4], p[5], p[6], p[7],
+            0, 0, 0, 0, 0, 0, 0, 0,
+        ], 56)
     }
-    let mut i = 0;
-    while i < 8 { b[p + i] = frag[i]; i += 1; }
-    p += 8;
-    let mut i = 0;
-    while i < 8 { b[p + i] = payload[i]; i += 1; }
-    (b, p + 8)
 }
 
 fn is_none(r: &Result<Option<IpDefragPayloadVec>, IpDefragError>) -> bool {
@@ -54,13 +54,10 @@ fn is_none(r: &Result<Option<IpDefragPayloadVec>, IpDefragError>) -> bool {
 fn is_datagram(r: &Result<Option<IpDefragPayloadVec>, IpDefragError>, a: &[u8; 8], b: &[u8; 8], proto: u8) -> bool {
     match r {
         Ok(Some(v)) => {
-            if v.ip_number.0 != proto || v.payload.len() != 16 { return false; }
-            let mut i = 0;
-            while i < 8 {
-                if v.payload[i] != a[i] || v.payload[8 + i] != b[i] { return false; }
-                i += 1;
-            }
-            true
+            let q = &v.payload;
+            v.ip_number.0 == proto && q.len() == 16
+                && q[0] == a[0] && q[1] == a[1] && q[2] == a[2] && q[3] == a[3] && q[4] == a[4] && q[5] == a[5] && q[6] == a[6] && q[7] == a[7]
+                && q[8] == b[0] && q[9] == b[1] && q[10] == b[2] && q[11] == b[3] && q[12] == b[4] && q[13] == b[5] && q[14] == b[6] && q[15] == b[7]
         }
         _ => false,
     }
@@ -70,7 +67,7 @@ fn is_datagram(r: &Result<Option<IpDefragPayloadVec>, IpDefragError>, a: &[u8; 8
 /// delivery that supplies the last missing byte - and nothing before", IPv6, with the fragment header directly behind the fixed
 /// header or behind a hop-by-hop header (symbolic), both arrival orders (symbolic), symbolic payload bytes, reserved bits and id.
 #[kani::proof]
-#[kani::unwind(20)]
+#[kani::unwind(4)]
 fn c11_pool_v6_two_fragments() {
     let hbh: bool = kani::any();
     let first_is_tail: bool = kani::any();
@@ -97,7 +94,7 @@ fn c11_pool_v6_two_fragments() {
 /// C11 "streams never mix": two IPv4 datagrams that differ in exactly one component of the fragment id (source address,
 /// identification, protocol or channel - symbolic choice) are reassembled independently; a duplicate does no harm.
 #[kani::proof]
-#[kani::unwind(20)]
+#[kani::unwind(4)]
 fn c11_pool_v4_streams_do_not_mix() {
     let which: u8 = kani::any();
     kani::assume(which < 4);
@@ -134,7 +131,7 @@ fn c11_pool_v4_streams_do_not_mix() {
 /// MF = 0 and offset 0, an IPv6 packet with an atomic fragment header (offset 0, M = 0, any reserved bits) behind an optional
 /// hop-by-hop header, and a fragment whose length is no multiple of 8 although more fragments follow.
 #[kani::proof]
-#[kani::unwind(20)]
+#[kani::unwind(4)]
 fn c11_pool_pass_through_and_errors() {
     let p: [u8; 8] = kani::any();
     let mut pool = IpDefragPool::<(), ()>::new();
